@@ -1,11 +1,13 @@
 """C05 — marginal model choice: best-KS candidate, filters, per-column config, fallback.
 
-Every case is a JSON-able spec; `real_*` run the implementation on a spec, the model is evaluated inside Coq
-(vm_compute of the GENERATED definitions, see coq/Props/C05.v `run_select`, `run_fit`, `run_columns`,
-`gen_select_candidates`, `gen_init_candidates`), `replay_*` are the entry points of the repro snippets.
+Every case is a JSON-able spec; `real_*` run the implementation on a spec, `judge_*` compare with the model's
+answer, `replay_*` are the entry points of the repro snippets.  The model is evaluated inside Coq by vm_compute
+of CopRun.C05_eval (`run_select`, `run_fit`, `run_candidates`, `run_walk`, `run_columns`: thin wrappers around
+the static Cop.Model.Select, written by this file on every run) so that a concrete failing input is found even
+when the translation of the current source (tools/vf/selectfacts.py) or a proof of coq/Props/C05.v breaks;
+Props/C05.v proves the wrappers equal to the definitions GENERATED from the current source.
 """
 import json
-import math
 import re
 from fractions import Fraction
 
@@ -18,7 +20,45 @@ REAL = ['BetaUnivariate', 'GammaUnivariate', 'GaussianUnivariate', 'GaussianKDE'
 EXC = {'ValueError': ValueError, 'RuntimeError': RuntimeError, 'ZeroDivisionError': ZeroDivisionError, 'TypeError': TypeError,
        'LinAlgError': np.linalg.LinAlgError, 'KeyError': KeyError, 'FloatingPointError': FloatingPointError,
        'AttributeError': AttributeError}
-IMPORTS = 'From Cop Require Import Model.Select.\nFrom CopRun Require Import Gen_classtree Gen_select Gen_gausscols C05.'
+IMPORTS = 'From Cop Require Import Model.Select.\nFrom CopRun Require Import C05_eval.'
+EVAL_V = '''(* written by tools/vf/props/C05.py on every run (fixed text): evaluation wrappers around the STATIC model
+   Cop.Model.Select.  The correspondence cases evaluate these, so a concrete disagreement is found even when the
+   translation of the current source or a proof in Props/C05.v no longer goes through; Props/C05.v proves that
+   they coincide with the GENERATED definitions (C05_eval_select, C05_eval_fit, C05_eval_candidates,
+   C05_eval_columns, C05_tree_is_repo_tree).
+   Candidates, column labels, columns and distributions are positions in tables; dist 0 = what the name
+   "Univariate" denotes in gaussian.py, dist 1 = "GaussianUnivariate", dist 2 = any other name (never instantiable). *)
+From Coq Require Import List Bool QArith ZArith String.
+From Cop Require Import Model.Select.
+Import ListNotations.
+
+Definition uname_str (n : uname) : string :=
+  match n with
+  | Univariate => "Univariate" | ScipyModel => "ScipyModel" | BetaUnivariate => "BetaUnivariate"
+  | GammaUnivariate => "GammaUnivariate" | GaussianUnivariate => "GaussianUnivariate"
+  | GaussianKDE => "GaussianKDE" | LogLaplace => "LogLaplace" | StudentTUnivariate => "StudentTUnivariate"
+  | TruncatedGaussian => "TruncatedGaussian" | UniformUnivariate => "UniformUnivariate"
+  end%string.
+Fixpoint map_ctree {A B} (f : A -> B) (t : ctree A) : ctree B :=
+  match t with
+  | CNode i subs => CNode (Build_class_info (f (cname i)) (cparam i) (cbound i) (cabc i)) (map (map_ctree f) subs)
+  end.
+Definition ref_tree : ctree string := map_ctree uname_str repo_tree.
+
+Definition oc_fun (l : list outcome) (m : nat) : outcome := nth m l Raised.
+Definition run_select (l : list outcome) : pyobj nat :=
+  get_instance_opt nat (select_best4 nat (oc_fun l) (seq 0 (List.length l))).
+Definition run_fit (l : list outcome) (refits : list bool) : fit_result nat :=
+  univariate_fit nat (fun m => ks_of (oc_fun l m)) (fun m => nth m refits false) (seq 0 (List.length l)).
+Definition run_candidates (e : option (list string)) p b : list string := init_candidates string e p b ref_tree.
+Definition run_walk p b (t : ctree string) : list string := select_candidates string p b t.
+Definition cls_of (s : string) : nat :=
+  if String.eqb s "GaussianUnivariate" then 1%nat else if String.eqb s "Univariate" then 0%nat else 2%nat.
+Definition run_columns (inst : list bool) (fits : list (list bool)) (cfg : dist_config nat nat)
+           (items : list (nat * nat)) :=
+  fit_columns nat nat (nat * nat)%type nat Nat.eqb 0%nat 1%nat (fun d => nth d inst false)
+    (fun d c => if nth c (nth d fits []) false then Some (d, c) else None) cfg items.
+'''
 SCOPE = 'Open Scope string_scope.\nOpen Scope nat_scope.\n'
 
 
@@ -504,7 +544,7 @@ def columns_coq(spec, inst, fits):
     if c[0] == 'single':
         cfg = f'(Single {c[1] + 3})'
     elif c[0] == 'default':
-        cfg = '(Single (cls_of gen_default_distribution_class))'
+        cfg = '(Single 0)'
     else:
         cfg = '(PerColumn [' + '; '.join(f'({lab_idx(lab)}, {i + 3})' for lab, i in c[1]) + '])'
     b = lambda v: 'true' if v else 'false'
@@ -1112,13 +1152,13 @@ def corr_candidates(ctx, rng, n_trees, model_ok, ct):
     exprs = []
     for s in specs:
         e = 'None' if s['explicit'] is None else f'(Some {coq_names(s["explicit"])})'
-        exprs.append(f'gen_init_candidates {e} {coq_opt(s["p"])} {coq_opt(s["b"])} gen_tree')
+        exprs.append(f'run_candidates {e} {coq_opt(s["p"])} {coq_opt(s["b"])}')
     tspecs = [gen_tree_spec(rng) for _ in range(n_trees)]
     treal = []
     for s in tspecs:
         got, eff = real_synth_tree(s)
         treal.append(got)
-        exprs.append(f'gen_select_candidates {coq_opt(s["p"])} {coq_opt(s["b"])} ({synth_tree_coq(s, eff)})')
+        exprs.append(f'run_walk {coq_opt(s["p"])} {coq_opt(s["b"])} ({synth_tree_coq(s, eff)})')
     outs = cases.run_vm_cases(ctx, 'Cases_C05_cands', IMPORTS, exprs, scope_open=SCOPE) if model_ok else [None] * len(exprs)
     for i, s in enumerate(specs):
         if outs[i] is None:
@@ -1149,6 +1189,8 @@ def corr_candidates(ctx, rng, n_trees, model_ok, ct):
                           f'_select_candidates({s["p"]}, {s["b"]}) on a synthetic class tree gives {got}, model {model}',
                           {'spec': s, 'model': model, 'implementation': got, 'repro': snippet('replay_synth', s, model)})
     # the extractor itself: AST tree == imported package
+    if ct is None:
+        return
     rt = SF.runtime_tree()
     at = SF.ast_tree_as_tuple(ct)
     ctx.obligation('corr:class-tree:ast-equals-runtime', rt == at, 'correspondence', f'AST {at}\nruntime {rt}')
@@ -1283,33 +1325,35 @@ def witness(ctx, rng, quick):
 def run(ctx):
     quick = ctx.tier == 'quick'
     _SAMPLES.clear()
+    ctx.write('C05_eval.v', EVAL_V)
+    model_ok = ctx.compile(['C05_eval.v'], count_statements=False)
     ok, ct, info = generate(ctx)
-    compiled = False
-    if ok:
+    if ok and model_ok:
         ctx.copy_src('Props/C05.v')
-        compiled = ctx.compile(['Gen_classtree.v', 'Gen_select.v', 'Gen_gausscols.v', 'C05.v'])
+        ctx.compile(['Gen_classtree.v', 'Gen_select.v', 'Gen_gausscols.v', 'C05.v'])
+    if ct is not None:
         ctx.extra['class_tree'] = SF.ast_tree_as_tuple(ct)
-        ctx.extra['default_fallback_classes'] = info
+    ctx.extra['default_fallback_classes'] = info
     ctx.rule('select_univariate / Univariate.fit: (i) candidates = harness classes scripted to raise in __init__/fit/cdf, with scipy kstest '
              'replaced by a function RETURNING chosen statistics (ties, 0, 1, nan, inf, values one ulp apart, raising), 0..7 candidates incl. '
              'duplicates, prototypes, all-fail lists; (ii) real families / qualified names / prototypes on random datasets (8 laws, NaN, constant, '
              '1-2 rows) with the real kstest RECORDED; per-candidate outcomes are read off the call trace of get_instance/kstest and the selected '
-             'position, error behaviour and freshness of the returned instance are compared with vm_compute of the generated '
-             'gen_select_univariate / gen_univariate_fit on exact rationals; selection_sample_size and failing final fit included')
+             'position, error behaviour and freshness of the returned instance are compared with vm_compute of run_select / run_fit '
+             '(= the generated gen_select_univariate / gen_univariate_fit, theorems C05_eval_*) on exact rationals; selection_sample_size '
+             'and a failing final fit included')
     ctx.rule('candidates: all 12 (parametric, bounded) combinations, explicit lists (classes, names), [] ; random synthetic class trees '
              '(<= 9 classes, ABC mixins, inherited/overridden tags) driven through the real Univariate._select_candidates; vs vm_compute of '
-             'gen_init_candidates / gen_select_candidates on the AST-extracted tree')
+             'run_candidates / run_walk (= gen_init_candidates / gen_select_candidates on the AST-extracted gen_tree, C05_eval_candidates, '
+             'C05_tree_is_repo_tree); the AST-extracted tree is also compared with the imported package')
     ctx.rule('GaussianMultivariate: 1-4 columns (str/int labels; NaN, constant, non-numeric columns), distribution = class | qualified name | '
              'instance prototype | dict (with unnamed columns and unused keys) | default; distributions that raise in fit or in __init__, '
-             'unresolvable names; oracles instantiable/fit_dist computed independently; compared with vm_compute of gen_fit_columns: '
+             'unresolvable names; oracles instantiable/fit_dist computed independently; compared with vm_compute of run_columns (= gen_fit_columns, C05_eval_columns): '
              'success/raise, column order, class per column, fallback used, parameters equal to an independent fit on the same column, fresh instance')
     rng = np.random.default_rng(ctx.seed + 5)
-    if ct is None:
-        return
-    corr_select(ctx, rng, 40 if quick else 600, 10 if quick else 80, compiled)
-    corr_fit(ctx, rng, 30 if quick else 400, 6 if quick else 60, compiled)
-    corr_candidates(ctx, rng, 30 if quick else 400, compiled, ct)
-    corr_columns(ctx, rng, 22 if quick else 200, compiled)
+    corr_select(ctx, rng, 40 if quick else 600, 10 if quick else 80, model_ok)
+    corr_fit(ctx, rng, 30 if quick else 400, 6 if quick else 60, model_ok)
+    corr_candidates(ctx, rng, 30 if quick else 400, model_ok, ct)
+    corr_columns(ctx, rng, 22 if quick else 200, model_ok)
     ctx.extra['witness_search_hits'] = witness(ctx, rng, quick)
     ctx.extra['quirks'] = [
         'D1 (not a violation of C05: no candidate can be fitted, so there is nothing to select; stated as C05_all_fail / C05_fit_all_fail): '
